@@ -43,6 +43,13 @@ Check C09_orders_never_older : forall (ops1 ops2 : list op) (s0 : orders) (c t :
   ts (run ops1 s0) c = Some t ->
   (forall k, (k <= length ops2)%nat -> ts (run (ops1 ++ firstn k ops2) s0) c <> None) ->
   exists t', ts (run (ops1 ++ ops2) s0) c = Some t' /\ t <= t'.
+Check C09_details_persist : forall (s : orders) (o : op) (c t : Z),
+  ts s c = Some t -> step s o c <> None ->
+  (forall r, o = RecOpen r -> k_cid (o_key r) <> c) ->
+  exists t', ts (step s o) c = Some t' /\ t <= t'.
+Check C09_open_report_floor : forall (s : orders) (o : op) (T : Z) (m : meta),
+  open_report o = Some (T, m) ->
+  exists t', ts (step s o) (cid_of o) = Some t' /\ T <= t'.
 Check C09_oracle_sound : forall c : case, corr_b c = true -> prop_b c = true.
 
 (* the definitions the statements rest on, pinned by evaluation *)
@@ -63,3 +70,6 @@ Check eq_refl : market_process (MD (L1 7 None None) None) 8 (ML1 (L1 8 (Some (1,
                 = MD (L1 8 (Some (1, 1)) None) None.
 Check eq_refl : bal_deliveries 1 [ABalance (BM 1 2 (3, 3)); ASnapshot [BM 0 5 (1, 1); BM 1 4 (2, 2)] []]
                 = [(2, (3, 3)); (4, (2, 2))].
+Check eq_refl : step (step (upd empty 1 (Some (mkO (mkK 0 0 7 1) Buy 100 10 Limit IOC (Open (mkM 5 20 4)))))
+                           (RecCancel (mkK 0 0 7 1))) (RecCancel (mkK 0 0 7 1)) 1
+                = Some (mkO (mkK 0 0 7 1) Buy 100 10 Limit IOC (CIF (Some (mkM 5 20 4)))).
